@@ -40,15 +40,21 @@ def run(ctx):
     for lf in leaves:
         evs = [e for e in lf.events if e[0] == "call" and e[1] in MUT]
         names = [e[1].rsplit("::", 1)[-1] for e in evs]
+        # membership is decided either by `set.contains(&item)` or by the return value of `set.insert(item)`
         dup = lf.boolean("%s(self.set, item)" % CONTAINS)
+        sins_all = [e for e in evs if e[1] == SINS and e[2][1].expr().lstrip("&") == "item"]
+        if dup is None and sins_all and len(sins_all[0]) > 5:
+            r = lf.boolean(sins_all[0][5].e)
+            dup = None if r is None else (not r)
         if dup is None:
             ctx.ob("C24.1", "membership is examined", False, "row %s" % lf.summary(), site=b.loc())
             continue
         if dup:
             rows["duplicate"] = names
-            ctx.ob("C24.1", "row:duplicate", isinstance(lf.ret, Const) and lf.ret.v is False and not evs,
+            touched = [n_ for n_ in names if n_ not in ("insert",)]
+            ctx.ob("C24.1", "row:duplicate", isinstance(lf.ret, Const) and lf.ret.v is False and not touched,
                    "insert of an item already in the set returns %s and performs %s (must return false and leave the "
-                   "buffer untouched)" % (lf.ret.expr(), names), site=b.loc(), key="C24.1:row:duplicate")
+                   "buffer untouched: no eviction, no push)" % (lf.ret.expr(), names), site=b.loc(), key="C24.1:row:duplicate")
             continue
         rel = lf.relation("Add(%s(self.buffer), 1)" % LEN, "%s(self.buffer)" % CAP)
         rel2 = lf.relation("%s(self.buffer)" % LEN, "%s(self.buffer)" % CAP)
